@@ -295,14 +295,24 @@ Fixpoint seq_history (prog : list instr) (k : nat) (g0 : fn) : fn :=
 Definition aes_step (patched : bool) (doc_needs_aes : bool) : bool := patched || doc_needs_aes.
 Definition aes_history (patched : bool) (docs : list bool) : bool := fold_left aes_step docs patched.
 
-(* when the AES fallback gets installed: today lazily (only when PdfReader's constructor fails for
-   want of AES, i.e. AES-256 files), repaired eagerly (before every open).  AES-128 files need the
-   provider only later, during decryption, where nothing installs it. *)
+(* when the AES fallback gets installed by _open_pdf_reader:
+     Lazy         only when PdfReader's constructor fails for want of AES (AES-256 files);
+     OnEncrypted  additionally for every document that opens and says it is encrypted;
+     Eager        before every open.
+   AES-128 (AESV2) files open without touching AES and need the provider only later, during
+   decryption, where nothing installs it. *)
+Inductive aes_install := Lazy | OnEncrypted | Eager.
 Inductive pdf_kind := PlainPdf | AesAtOpen | AesLate.
-Definition aes_open (eager patched : bool) (k : pdf_kind) : bool :=
-  if eager then true else match k with AesAtOpen => true | _ => patched end.
-Definition aes_extract (eager patched : bool) (k : pdf_kind) : bool * bool :=
-  let p := aes_open eager patched k in
+Definition aes_open (m : aes_install) (patched : bool) (k : pdf_kind) : bool :=
+  match m, k with
+  | Eager, _ => true
+  | _, AesAtOpen => true
+  | OnEncrypted, AesLate => true
+  | _, _ => patched
+  end.
+Definition aes_extract (m : aes_install) (patched : bool) (k : pdf_kind) : bool * bool :=
+  let p := aes_open m patched k in
   (match k with AesLate => p | _ => true end, p).     (* (extraction succeeds, patched afterwards) *)
-Definition aes_docs (eager patched : bool) (ks : list pdf_kind) : bool :=
-  fold_left (fun p k => snd (aes_extract eager p k)) ks patched.
+Definition aes_docs (m : aes_install) (patched : bool) (ks : list pdf_kind) : bool :=
+  fold_left (fun p k => snd (aes_extract m p k)) ks patched.
+Definition aes_mode_safe (m : aes_install) : bool := match m with Lazy => false | _ => true end.
